@@ -9,7 +9,7 @@ import datetime
 from decimal import Decimal
 
 from .. import engine, ledgers
-from ..values import same, show
+from ..values import same, show, show_rows
 
 ID = 'C11'
 LEVEL = 'exploration'
@@ -274,6 +274,36 @@ def check_tables(ctx, conn, entries, case, li):
     exp = expected_postings(entries)
     cols = list(exp[0][0].keys()) if exp else ['account']
     check_table(ctx, conn, 'postings', cols, [r for r, _, _ in exp], case, li)
+    # ---- attribute chains on the structured cells of the postings (a zero amount is no NULL)
+    if exp:
+        chain = ('position.units.number AS a, position.units.currency AS b, weight.number AS c, weight.currency AS d, price.number AS e, price.currency AS f, '
+                 'position.cost.number AS g, position.cost.currency AS h, entry.flag AS i, entry.narration AS j')
+        try:
+            got = conn.execute(parsed(f'SELECT {chain} FROM #postings')).fetchall()
+        except Exception as exc:  # noqa: BLE001
+            ctx.violation('c11.query_failed.attribute_chains', f'{type(exc).__name__}: {exc}', case)
+            got = None
+        if got is not None:
+            for n, ((row, e, p), g) in enumerate(zip(exp, got)):
+                w = weight_of(p)
+                want = (p.units.number, p.units.currency, w.number, w.currency, p.price.number if p.price else None, p.price.currency if p.price else None,
+                        p.cost.number if p.cost else None, p.cost.currency if p.cost else None, e.flag, e.narration)
+                ctx.count('obs.attribute_chain_cells', len(want))
+                if tuple(g) != want:
+                    k = next(i for i, (x, y) in enumerate(zip(g, want)) if x != y)
+                    ctx.violation('c11.attribute_chain', f'posting {n} ({p.account} {p.units}): attribute chain {chain.split(", ")[k]} = {show(g[k])!r}, the directive gives {show(want[k])!r}', case)
+                    break
+        for tname, col in (('prices', 'amount'), ('balances', 'amount')):
+            cls = data.Price if tname == 'prices' else data.Balance
+            ents = [x for x in entries if isinstance(x, cls)]
+            try:
+                got = conn.execute(parsed(f'SELECT {col}.number AS n, {col}.currency AS c FROM #{tname}')).fetchall()
+            except Exception as exc:  # noqa: BLE001
+                ctx.violation('c11.query_failed.attribute_chains', f'#{tname}: {type(exc).__name__}: {exc}', case)
+                continue
+            want = [(x.amount.number, x.amount.currency) for x in ents]
+            if [tuple(r) for r in got] != want:
+                ctx.violation('c11.attribute_chain', f'#{tname}: {col}.number / {col}.currency = {show_rows(got, 3)}, the directives give {show_rows(want, 3)}', case)
     # ---- entries
     erows = []
     for e in entries:
